@@ -45,6 +45,10 @@ pub fn dps(tcx: TyCtxt<'_>, did: DefId) -> String {
     }
 }
 
+pub fn uid(tcx: TyCtxt<'_>, did: DefId) -> String {
+    tcx.def_path(did).to_string_no_crate_verbose()
+}
+
 pub fn span_json(tcx: TyCtxt<'_>, sp: rustc_span::Span) -> J {
     let sm = tcx.sess.source_map();
     let exp = sp.from_expansion();
@@ -388,6 +392,7 @@ fn export_body<'tcx>(cx: &mut Cx<'tcx>, ldid: LocalDefId, kind: DefKind) -> J {
     let did = ldid.to_def_id();
     let mut o: Vec<(&'static str, J)> = vec![
         ("path", J::s(dps(tcx, did))),
+        ("uid", J::s(uid(tcx, did))),
         ("kind", J::s(format!("{:?}", kind))),
         ("span", span_json(tcx, tcx.def_span(did))),
     ];
